@@ -201,6 +201,25 @@ def held_reader_family():
     return progs
 
 
+def ack_flush_family():
+    """A reader holds its pin on a generation that has just been superseded; two threads call flush().
+    No flush() may return Ok while the retirement is still pending (FlushAckComplete)."""
+    progs = []
+    big = {"k": "b", "id": 4, "len": 5000, "n": 0}
+    one = {"k": "b", "id": 6, "len": 900, "n": 0}
+    nv = {"k": "b", "id": 7, "len": 1200, "n": 0}
+    points = ["rd_pinned", "rd_sector", "ret_requeue", "ret_device", "ret_release", "ff_send", "ff_retire"]
+    for tag, val in (("multi", big), ("single", one)):
+        cfg = {"pers": True, "ttl": True, "lim": -1, "cache": False, "blocks": 24}
+        init = [{"op": "insert", "k": 1, "v": val, "auto": False, "tsv": NOW - 10 * E9}, {"op": "flush"}]
+        for rn, r in (("get", [{"op": "get", "k": 1}]), ("range", [{"op": "range", "lo": 1, "hi": 2, "lim": 3}])):
+            for wn, w in (("delete", [{"op": "delete", "k": 1}, {"op": "flush"}]), ("update", [{"op": "insert", "k": 1, "v": nv}, {"op": "flush"}])):
+                progs.append(("ackflush_%s_%s_%s" % (tag, rn, wn),
+                              {"cfg": cfg, "keys": ["k1", "k2"], "init": init, "points": points,
+                               "threads": [r, w, [{"op": "flush"}, {"op": "flush"}]]}))
+    return progs
+
+
 def run_dfs(fxv, rd, progs, tag, chunk=40, maxsched=300, preempt=2, par=12):
     """Execute every program's schedules; returns list of (trace, info)."""
     groups = [progs[i:i + chunk] for i in range(0, len(progs), chunk)]
